@@ -11,6 +11,8 @@ output; the immediately following fault-free execution and a fixed reference cal
 fault-free observation; the library's global state is unchanged.
 """
 import errno
+import sys
+import types
 
 from sim import corpus, kernel, observe, values
 from sim import shrink as shr
@@ -332,9 +334,48 @@ def make_world(yaml, case):
               'yaml_dumper': world.get('Dumper') or type('NoDumper', (yaml.SafeDumper,), {})}
         world['YObj'] = type(yaml.YAMLObject)('YObj', (yaml.YAMLObject,), ns)
         world['PKey'] = PKey
+        if pyobj_case(case):
+            # caller-owned code that the python/object tags run: the callable of !!python/object/apply, __init__ /
+            # __setstate__ of !!python/object/new and !!python/object, __reduce_ex__ on the way out
+            mod = types.ModuleType(PYMOD)
+
+            def factory(*args, **kwds):
+                world['plan'].hit('cb')
+                return ['made', list(args), sorted(kwds)]
+
+            class Obj:
+                def __init__(self, *args, **kwds):
+                    world['plan'].hit('cb')
+                    self.args = list(args)
+
+                def __setstate__(self, state):
+                    world['plan'].hit('cb')
+                    self.__dict__.update(state)
+
+            class Red:
+                def __init__(self, n=0):
+                    self.n = n
+
+                def __reduce_ex__(self, proto):
+                    world['plan'].hit('cb')
+                    return (Red, (self.n,), {'extra': [self.n, 'x']})
+            for o in (factory, Obj, Red):
+                o.__module__ = PYMOD
+                o.__qualname__ = o.__name__
+                setattr(mod, o.__name__, o)
+            sys.modules[PYMOD] = mod
+            world['Red'] = Red
         if 'Loader' in world:
             world['Loader'].add_constructor('!pk', lambda loader, node: PKey(loader.construct_scalar(node)))
     return world
+
+
+PYMOD = 'verif_simworld'
+
+
+def pyobj_case(case):
+    return bool(case.get('special')) and ((case.get('dumper') in ('Dumper', 'CDumper') and case['side'] == 'dump') or
+                                          (case.get('loader') in ('Loader', 'UnsafeLoader', 'CLoader', 'CUnsafeLoader') and case['side'] == 'load'))
 
 
 def add_path_resolvers(cls):
@@ -357,6 +398,8 @@ def prepare_payload(yaml, case, world):
         y = world['YObj'].__new__(world['YObj'])
         y.__dict__.update({'a': 1, 'b': [2, 'three']})
         vals = [[y, {'k': y}]] + vals if case['api'] == 'dump' else vals + [[y, {'k': y}]]
+        if pyobj_case(case):
+            vals[0 if case['api'] == 'dump' else -1].append([world['Red'](1), {'r': world['Red'](2)}])
     if case['side'] == 'dump':
         if case['api'] in ('serialize_all', 'serialize', 'emit'):
             text = yaml.dump_all(vals, Dumper=type('PrepDumper', (yaml.SafeDumper,), {}) if not case['custom'] else prep_dumper(yaml))
@@ -371,6 +414,9 @@ def prepare_payload(yaml, case, world):
         text += '--- !m/seq [1, !m/x y, !m/map {a: !pt {x: 1, y: 2}}]\n'
     if case.get('special'):
         text += '--- [!yobj {a: 1, b: [2]}, {!pk k1: 1, !pk k2: [!yobj {c: 3}]}]\n'
+        if pyobj_case(case):
+            text += ('--- [!!python/object/apply:%(m)s.factory [1, two], !!python/object/new:%(m)s.Obj {args: [1], state: {z: [1]}},\n'
+                     '  !!python/object:%(m)s.Obj {q: 1}, !!python/object/apply:%(m)s.factory {args: [3], kwds: {k: !!python/object/new:%(m)s.Obj [5]}}]\n' % {'m': PYMOD})
     return text
 
 
